@@ -990,9 +990,14 @@ def _enclosures(ref, chans, atomic):
         'par': {'k': 'par', 'b': S, 'ov': {'C': [V('a')]}},
         'par-over': {'k': 'par', 'b': S, 'ov': {chans[-1]: [C(5)]}},
         'arithr': {'k': 'arithr', 'b': S, 'op': '-', 's': {'all': V('a')}},
+        'arithl-map': {'k': 'arithl', 'b': S, 'op': '+', 's': {'map': {chans[0]: V('a')}}},       # dict scalar (copied per query)
+        'arithl-mul-map': {'k': 'arithl', 'b': S, 'op': '*', 's': {'map': {chans[-1]: add(V('a'), C(1))}}},
         'for-par': {'k': 'for', 'i': 'i1', 'start': C(1), 'stop': C(4), 'step': C(2), 'b': {'k': 'par', 'b': S, 'ov': {'C': [V('i1')]}}},
     }
     if atomic:
+        # time dependent dict scalar (evaluated at t = 0 / t = duration per query)
+        enc['arith-t'] = {'k': 'arithl', 'b': S, 'op': '+', 's': {'mapt': {chans[0]: [C(1), V('a')]}}}
+        enc['for-arith-t'] = dict(fl(C(1), C(3), C(1)), b={'k': 'arithr', 'b': S, 'op': '-', 's': {'mapt': {chans[0]: [V('i1'), C(F(1, 2))]}}})
         enc['aatom-self'] = {'k': 'aatom', 'l': S, 'op': '+', 'r': S}
         enc['for-aatom-self'] = dict(fl(C(0), C(3), C(2)), b={'k': 'aatom', 'l': S, 'op': '+', 'r': S})
     return enc
@@ -1068,6 +1073,15 @@ def _replace(t, path, new):
     return dict(t, **{key: _replace(t[key], path[1:], new)})
 
 
+def _positive(S, params, fv):
+    try:
+        env = {k: F(v) for k, v in params.items()}
+        env.update({v: F(1) for v in fv})
+        return pdur(S, env) > 0
+    except (KeyError, ZeroDivisionError, ValueError):
+        return False
+
+
 def random_forest(rng, depth):
     """a random template, one of its sub-templates made a shared object, and further random templates around the same
     object (loop indices that were bound in the first template are rebound by a new loop or become plain parameters)"""
@@ -1101,7 +1115,9 @@ def random_forest(rng, depth):
                 e = {'k': 'par', 'b': R, 'ov': {rng.choice(['C', 'D', chans[-1]]): [cx.volt()]}}
             elif x < 0.88:
                 e = {'k': rng.choice(['arithl', 'arithr']), 'b': R, 'op': rng.choice(['+', '-', '*']), 's': {'all': cx.volt()}}
-            elif x < 0.94 and atomic:
+            elif x < 0.94 and atomic and _positive(S, c['params'], fv):
+                # (ArithmeticAtomicPT over EMPTY operands is outside the model: Spec.denote wants one piece per operand,
+                #  the code returns the empty pulse; the plain generator never builds it either)
                 e = {'k': 'aatom', 'l': R, 'op': rng.choice(['+', '-']), 'r': R}
             else:
                 pm = {v: add(V(v), C(1)) for v in sorted(free_vars(S)) if rng.random() < 0.5 and v in ('a', 'b', 'c', 'n', 'm') + tuple(fv)}
@@ -1198,6 +1214,12 @@ def blind_class_families(tier='thorough'):
          {}, 'parameter-named-t')
     case({'k': 'map', 'b': {'k': 'func', 'c': 'A', 'd': C(2), 'coef': [C(0), V('a')]}, 'pm': {'a': V('t')}, 'cm': []},
          {'t': '3'}, 'parameter-named-t')
+    # ... and together with a time dependent value / scalar (legal since the /repo fixes 94713f4, 2e2bf3b, 012495f)
+    case({'k': 'par', 'b': {'k': 'const', 'd': C(2), 'vals': {'A': V('t')}}, 'ov': {'B': [C(0), C(2)]}}, {'t': '3'}, 'parameter-named-t')
+    case({'k': 'par', 'b': {'k': 'const', 'd': V('t'), 'vals': {'A': C(1)}}, 'ov': {'B': [C(0), V('a')]}}, {'t': '2', 'a': '5'},
+         'parameter-named-t')
+    case({'k': 'arithl', 'b': {'k': 'const', 'd': C(2), 'vals': {'A': V('t')}}, 'op': '+', 's': {'allt': [C(0), C(1)]}}, {'t': '3'},
+         'parameter-named-t')
     # (5) "declared as empty" versus "not declared": empty scalar mapping, empty set of overwritten channels -------------
     c2 = {'k': 'const', 'd': C(2), 'vals': {'A': V('a'), 'B': C(1)}}
     case({'k': 'arithl', 'b': c2, 'op': '+', 's': {'map': {}}}, {'a': '3'}, 'declared-empty')
